@@ -2,7 +2,10 @@
 single-preemption interleaving; the pair of results must be one that some sequential order produces."""
 
 _CON = "Contract(Bid.NT3, x=True, xx=False, vul=Vul.NS, declarer=Player.E)"
-_DEAL_SETUP = "h1 = Hands.convert_pbn(PBN1)\nh2 = Hands.convert_pbn(PBN2)"
+_DEAL_SETUP = ("h1 = Hands.convert_pbn(PBN1)\nh2 = Hands.convert_pbn(PBN2)\nb1 = {p: tuple(1 if (p.value * 13 + i) % 52 < 13 else 0 for i in range(52)) for p in Player}\n"
+               "b2 = {p: tuple(1 if (p.value * 13 + i + 5) % 52 < 13 else 0 for i in range(52)) for p in Player}\n"
+               "import numpy as np\nn1 = {p: np.array(v) for p, v in b1.items()}\nn2 = {p: np.array(v) for p, v in b2.items()}\n"
+               "j1 = {'N': ['C2', 'SA'], 'E': ['D3'], 'S': ['HK'], 'W': ['CT']}\nj2 = {'N': ['S2'], 'E': ['H3', 'DA'], 'S': ['CK'], 'W': ['DT']}")
 
 
 def pair(name, a, b, shared=''):
@@ -65,6 +68,10 @@ C14 = [
     pair('binary-roundtrip', 'Hands.convert_binary(h1.to_binary()).to_pbn()', 'Hands.convert_binary(h2.to_binary()).to_pbn()', _DEAL_SETUP),
     pair('np-roundtrip', 'Hands.convert_np_binary(h1.to_np_binary()).to_pbn()', 'Hands.convert_np_binary(h2.to_np_binary()).to_pbn()', _DEAL_SETUP),
     pair('json-lists', 'hands_parser(convert_deal(h1)).to_pbn()', 'hands_parser(convert_deal(h2)).to_pbn()', _DEAL_SETUP),
+    pair('decode-binary-first-use', 'sorted(map(str, Hands.convert_binary(b1).north))', 'sorted(map(str, Hands.convert_binary(b2).east))', _DEAL_SETUP),
+    pair('decode-np-first-use', 'sorted(map(str, Hands.convert_np_binary(n1).south))', 'sorted(map(str, Hands.convert_np_binary(n2).west))', _DEAL_SETUP),
+    pair('decode-json-first-use', 'sorted(map(str, hands_parser(j1).north))', 'sorted(map(str, hands_parser(j2).east))', _DEAL_SETUP),
+    pair('random-dealer', 'sorted(len(v) for v in Hands.generate_random_hands().to_dict().values())', 'sorted(len(v) for v in Hands.generate_random_hands().to_dict().values())'),
     pair('same-object', 'h1.to_pbn(Player.S)', 'sorted((p.name, v) for p, v in h1.to_binary().items())', _DEAL_SETUP),
 ]
 
